@@ -1502,7 +1502,28 @@ func (c *Ctx) supersededOnEveryRequest(rule string) {
 					return true
 				}
 			}
-			if rel.X != e {
+			// the look-up's error, or that error with the not-found sentinel put in
+			// its place where the storer answered (nil, nil)
+			var sameErr func(v ssa.Value, d int) bool
+			sameErr = func(v ssa.Value, d int) bool {
+				if v == e {
+					return true
+				}
+				ph, ok := v.(*ssa.Phi)
+				if !ok || d > 3 {
+					return false
+				}
+				for _, x := range ph.Edges {
+					if g := loadOfGlobal(x); g != nil && g.Name() == "ErrUserNotFound" {
+						continue
+					}
+					if !sameErr(x, d+1) {
+						return false
+					}
+				}
+				return true
+			}
+			if !sameErr(rel.X, 0) {
 				return false
 			}
 			// the look-up failed: unknown account (answered with the same success) or an error
